@@ -83,6 +83,15 @@ class ConnProc:
             self.finish()
             return
         s = self.w.sim
+        # TCP keep-alive probes of the idle period that just ended: one byte repeating the last byte the side has sent
+        # (sequence number snd.nxt - 1), seen right before the next flight
+        if self.f >= 1:
+            for d in ("c", "s"):
+                prev = [u for g in self.fl[:self.f] for u in g[d] if "hi" in u]
+                if prev and (prev[-1].get("act") or [None])[0] == "keepalive" and prev[-1]["hi"] - prev[-1]["lo"] >= 1:
+                    u = prev[-1]
+                    self.w.tap_event(self, d, dict({k: v for k, v in u.items() if k != "act"}, lo=u["hi"] - 1, dup=True,
+                                                   reseg=True, tail=True))
         self.w.flight_started(self, self.f)
         self.pending = 0
         n_units = 0
@@ -116,6 +125,8 @@ class ConnProc:
                 elif act[0] == "dup_late":   # ACK lost: spurious retransmission well after the peer answered
                     arrivals.append((base, False))
                     self.w.late_dups.append((self, d, u, act[1]))
+                elif act[0] == "keepalive":  # normal delivery; a probe follows when the connection has been idle
+                    arrivals.append((base, False))
                 elif act[0] == "lost":       # never seen by the tap, but received by the peer (tap-side loss)
                     pass
                 else:
@@ -800,7 +811,7 @@ def make_truth(spec, infos, taplog, frames_meta, drop, cut_lo, cut_hi, dups):
             for e in taplog:
                 if e["conn"] == cid and "ctl" not in e:
                     fr.append({"i": e["i"], "d": e["d"], "lo": e["lo"], "hi": e["hi"], "ts": e["ts"],
-                               "dup": bool(e.get("dup")), "kept": e["i"] in kept})
+                               "dup": bool(e.get("dup")), "kept": e["i"] in kept, "tail": bool(e.get("tail"))})
             t["frames"] = fr
             t["keys"] = info["keys"]
             t["streams"] = info["streams"]
